@@ -59,12 +59,12 @@ Section P.
 
   Lemma exec_outcome_independent (c : cid CS) (o : op) : forall sts sts', snd (exec c sts o) = snd (exec c sts' o).
   Proof.
-    intros sts sts'. destruct o as [m l r f|[[|n]|] r f|m l r f k|m l r f|rows [|]|first m l r f j]; reflexivity.
+    intros sts sts'. destruct o as [m l r f|[[|n]|] r f|m l r f k|m l r f|m l r f|rows [|]|first m l r f j]; reflexivity.
   Qed.
 
   Lemma exec_state_independent (c : cid CS) (o : op) : forall sts sts', fst (exec c sts o) = fst (exec c sts' o).
   Proof.
-    intros sts sts'. destruct o as [m l r f|[[|n]|] r f|m l r f k|m l r f|rows [|]|first m l r f j]; reflexivity.
+    intros sts sts'. destruct o as [m l r f|[[|n]|] r f|m l r f k|m l r f|m l r f|rows [|]|first m l r f j]; reflexivity.
   Qed.
 
   Lemma history_independent_lemma (c : cid CS) (h : list op) (o : op) : forall sts fresh,
@@ -78,5 +78,17 @@ Section P.
     induction h as [|o rest IH]; intros sts; cbn [run_history map]; [reflexivity|].
     destruct (exec c sts o) as [sts' oc] eqn:E. rewrite IH. f_equal.
     change oc with (snd (sts', oc)). rewrite <- E. apply exec_outcome_independent.
+  Qed.
+
+  (* a pass that cannot even start (the container is broken, the sheet is missing): nothing is returned, the error is
+     raised, and close() - called by hand - judges the end checks on freshly reset states, whatever earlier runs left *)
+  Lemma failed_pass_lemma (c : cid CS) m limit sts :
+    let oc := snd (exec c sts (OpByHand m limit [] true)) in
+    oc_outs oc = [] /\ (exists e, oc_raised oc = Some e) /\
+    oc_writes oc = [snd (fst (close c (resets (c_checks c)) (rs_loc (start c))))].
+  Proof.
+    cbn [exec]. unfold reader_rows. cbn.
+    destruct (close c (resets (c_checks c)) {| l_line := 0; l_cell := 0 |}) as [[sts' ce] evs]. cbn.
+    repeat split. eexists. reflexivity.
   Qed.
 End P.
